@@ -3,7 +3,7 @@
     handlers [n], subscribers honouring their context or not [hon], any number of messages and
     Close callers, timeouts firing at any moment).  Flags: fix5 / fix6 / fix12 = the repairs of
     D5 / D6 / D12 (true = the code after the fix: commits). *)
-From WM Require Import Base.Prelude Router.Close Router.CloseMonitor Router.CloseProofs Router.CloseTheorems Router.CloseWitness Router.CloseRefine Router.CloseStuck Router.CloseTerm.
+From WM Require Import Base.Prelude Router.Close Router.CloseMonitor Router.CloseProofs Router.CloseTheorems Router.CloseWitness Router.CloseRefine Router.CloseStuck Router.CloseTerm Router.CloseAccept.
 
 (** a Close call that returned nil: no handler invocation in progress, no message in the
     pipeline (each one taken from the subscriber has been handled to completion and settled),
@@ -272,3 +272,60 @@ Theorem C06_system_steps_decrease_measure :
   forall K s l s', Inv s -> hbounded s -> bounded K s -> sys_label l = true -> step s l = Some s' -> mu K s' < mu K s.
 Proof. exact mu_decreases. Qed.
 Print Assumptions C06_system_steps_decrease_measure.
+
+(** ** the acceptor is not a trusted oracle *)
+
+(** [mon_run] (Router/CloseMonitor.v) - the function the check evaluates on implementation
+    histories - accepts the API trace of EVERY run of the repaired model: any handlers, any
+    never-started handlers, any subscribers, with or without the D6/D16 repairs, any schedule; no
+    rejection code of any kind.  One simulation case per label ([sim_step], Router/CloseRefine.v). *)
+Theorem C06_model_accepted :
+  forall nh hp n u hon f6 f16 ls, mon_run nh hp (trace (init_u n u hon true f6 true f16) ls) = [].
+Proof. exact mon_accepts_model_u. Qed.
+Print Assumptions C06_model_accepted.
+
+(** ... including its verdict AT REST (the event [AQuiescent] the driver appends when every
+    handleClose goroutine has decided): if Run's context was not cancelled before Close signalled,
+    the acceptor also finds Close() called on every handler's subscriber and, after a nil Close,
+    every publisher closed (second simulation relation [RelQ], Router/CloseAccept.v).  This is the
+    complement of the known finding below. *)
+Theorem C06_model_accepted_at_rest :
+  forall n hon ls hp,
+    let s0 := init n hon true true true in
+    let s := exec s0 ls in
+    early_cancel s = false ->
+    (forall h, h < n -> hc_decided (hc s h) = true) ->
+    mon_run n hp (trace s0 ls ++ [AQuiescent]) = [].
+Proof. exact model_accepted_at_rest. Qed.
+Print Assumptions C06_model_accepted_at_rest.
+
+(** the KNOWN FINDING, in the repaired model: Run's context cancelled BEFORE Close signals =>
+    handleClose leaves through ctx.Done and never closes the subscriber; with a subscriber that
+    ignores its context the Close call waits with no system step enabled and no handler running
+    (only the clock can end it).  The complementary case is [C06_close_closes_subscribers] /
+    [C06_model_accepted_at_rest] (no cancel before Close => every subscriber closed). *)
+Theorem C06_close_closes_subscribers_refuted_after_early_cancel :
+  match replay (init 1 ignore_ctx true true true) early_cancel_schedule with
+  | Some s => match cp s 0 with CWait => true | _ => false end && early_cancel s &&
+              match hc s 0 with HCDone => true | _ => false end && Nat.eqb (sub_closes s 0) 0 &&
+              negb (handler_running_b s) && match sys_enabled s 1 with [] => true | _ => false end
+  | None => false
+  end = true.
+Proof. exact early_cancel_witness. Qed.
+Print Assumptions C06_close_closes_subscribers_refuted_after_early_cancel.
+
+Example C06_monitor_reports_known_finding :
+  map snd (mon_run 1 (fun _ => true)
+             (trace (init 1 ignore_ctx true true true) (early_cancel_schedule ++ [LTimeout 0; LClose 0; LClose 0]) ++ [AQuiescent]))
+  = [7; 8].
+Proof. exact early_cancel_monitor_rejects. Qed.
+
+(** handleMessage's failure exits (handler error, recovered panic) are part of the model ([LFail]):
+    every theorem above quantifies over them; a concrete run *)
+Example C06_failing_handler_example :
+  match replay (init 1 ignore_ctx true true true) failing_handler_schedule with
+  | Some s => returned s 0 RNil && quiescent_b s && negb (panicked s) &&
+              match mon_run 1 (fun _ => true) (trace (init 1 ignore_ctx true true true) failing_handler_schedule ++ [AQuiescent]) with [] => true | _ => false end
+  | None => false
+  end = true.
+Proof. exact failing_handler_example. Qed.
